@@ -4,6 +4,8 @@ mod status;
 
 #[cfg(feature = "simulation")]
 mod simulation;
+#[cfg(datacake_verif)]
+pub mod verif;
 
 use std::io;
 
